@@ -112,11 +112,15 @@ def gen_hierarchy(rng, P):
                 init = True
             if shape_ in ("opt", "tuple") and rng.random() < 0.08:
                 pass
+            if rng.random() < 0.25:
+                ann = repr(ann)  # string annotation mixed with concrete ones (resolved later by the library)
             f = FS(nm, "child", ann, shape_, types, compare=compare, init=init, kw_only=kw_only, default=default)
         else:
             kind, ann, default = rng.choice(PROP_POOL)
             if kind == "lit" and rng.random() < 0.5:
                 kind, ann, default = "enum", f"{P}Color", f"{P}Color.RED"
+            if rng.random() < 0.2 and kind != "enum":
+                ann = repr(ann)
             f = FS(nm, "prop", ann, kind, (), compare=compare, init=init, kw_only=kw_only, default=default)
         return f
 
@@ -263,8 +267,13 @@ def check_instance(ctx, U, cname, inst, detail, rng, full: bool):
                 exp=[e.name for e in exp],
             )
             return
-    # children
-    for sort in (False, True):
+    # children: random order of the sort flag and of the three accessors, so that the very first call of
+    # each generated accessor on a class is sometimes a sorted one - and is itself checked
+    sorts = [False, True]
+    rng.shuffle(sorts)
+    acc_order = ["with_field", "nodes", "iter"]
+    rng.shuffle(acc_order)
+    for sort in sorts:
         fs = sorted(childs, key=lambda f: f.name) if sort else childs
         exp_nodes = []
         exp_iter = []
@@ -282,19 +291,23 @@ def check_instance(ctx, U, cname, inst, detail, rng, full: bool):
                 exp_nodes.append((v, f, None))
         if any(type(n).__name__.endswith(("Fz", "Fb")) for n, _, _ in exp_nodes):
             ctx.count("falsy_children")
-        got = list(inst.get_child_nodes_with_field(sort_keys=sort))
         ctx.count("accessor_calls", 3)
-        if len(got) != len(exp_nodes) or any(g[0] is not e[0] or g[1] is not dcf[e[1].name] or g[2] != e[2] for g, e in zip(got, exp_nodes)):
-            bad("get_child_nodes_with_field", "get_child_nodes_with_field differs", sort_keys=sort, got=[(g[1].name, g[2]) for g in got], exp=[(e[1].name, e[2]) for e in exp_nodes])
-            return
-        got = list(inst.get_child_nodes(sort_keys=sort))
-        if [id(x) for x in got] != [id(e[0]) for e in exp_nodes]:
-            bad("get_child_nodes", "get_child_nodes differs", sort_keys=sort)
-            return
-        got = list(inst.iter_child_fields(sort_keys=sort))
-        if len(got) != len(exp_iter) or any(g[0] is not e[0] or g[1] is not dcf[e[1].name] for g, e in zip(got, exp_iter)):
-            bad("iter_child_fields", "iter_child_fields differs", sort_keys=sort, got=[g[1].name for g in got], exp=[e[1].name for e in exp_iter])
-            return
+        for acc in acc_order:
+            if acc == "with_field":
+                got = list(inst.get_child_nodes_with_field(sort_keys=sort))
+                if len(got) != len(exp_nodes) or any(g[0] is not e[0] or g[1] is not dcf[e[1].name] or g[2] != e[2] for g, e in zip(got, exp_nodes)):
+                    bad("get_child_nodes_with_field", "get_child_nodes_with_field differs", sort_keys=sort, got=[(g[1].name, g[2]) for g in got], exp=[(e[1].name, e[2]) for e in exp_nodes])
+                    return
+            elif acc == "nodes":
+                got = list(inst.get_child_nodes(sort_keys=sort))
+                if [id(x) for x in got] != [id(e[0]) for e in exp_nodes]:
+                    bad("get_child_nodes", "get_child_nodes differs", sort_keys=sort)
+                    return
+            else:
+                got = list(inst.iter_child_fields(sort_keys=sort))
+                if len(got) != len(exp_iter) or any(g[0] is not e[0] or g[1] is not dcf[e[1].name] for g, e in zip(got, exp_iter)):
+                    bad("iter_child_fields", "iter_child_fields differs", sort_keys=sort, got=[g[1].name for g in got], exp=[e[1].name for e in exp_iter])
+                    return
         if not sort:
             ch = inst.children
             if [id(x) for x in ch] != [id(e[0]) for e in exp_nodes]:
@@ -375,10 +388,9 @@ def run_shard(ctx):
                         elif first_acc == "get_child_fields":
                             C.get_child_fields()
                     inst = make_instance(irng, U, cname)
-                    if k == 0 and first_acc in ("get_properties", "get_child_nodes", "get_child_nodes_with_field", "iter_child_fields"):
-                        list(getattr(inst, first_acc)())
-                    elif k == 0 and first_acc == "children":
-                        _ = inst.children
+                    if k == 0 and first_acc == "children":
+                        _ = inst.children  # bootstraps get_child_nodes unsorted
+                    # (the other accessors get their first call inside check_instance, where it is checked)
                     check_instance(ctx, U, cname, inst, detail, irng, full=(k == 0 or ctx.tier == "thorough"))
                 # second pass: every class again (after all were used), new instances
                 for cname in names:
